@@ -136,6 +136,38 @@ def worker_update(cfg, tier):
     return obs
 
 
+def worker_init(cfg, tier):
+    """base case of the induction: the state CEMSolver.init_state hands to the first iteration has best-so-far loss +inf ("nothing evaluated yet":
+    every finite loss beats it, an all-NaN/inf first generation leaves it +inf) and the given mean as place-holder candidate"""
+    import jax.numpy as jnp
+    import numpy as onp
+    from vlib import jx, smt
+
+    solver, state, samples, losses = _mk(cfg["N"], cfg["elite"], cfg["leaves"])
+    obs = []
+    for with_stdev in (False, True):
+        alg = jx.FPAlg()
+        it = jx.Interp(alg=alg)
+        fn = (lambda mean, sd: solver.init_state(mean, sd)) if with_stdev else (lambda mean: solver.init_state(mean))
+        args = (state.mean, state.stdev) if with_stdev else (state.mean,)
+        tr = jx.Traced(fn, *args)
+        flat = tr.sym_inputs(it, "i")
+        ins = tr.in_pytree(flat)
+        out = tr.run(it, flat)
+        bl = alg.z(out.bestsofar_loss.item(), "f") if hasattr(alg, "z") else out.bestsofar_loss.item()
+        same = z3.And(*[z3.Or(z3.fpEQ(a, b), z3.And(z3.fpIsNaN(a), z3.fpIsNaN(b))) for k in cfg["leaves"] for a, b in zip(out.bestsofar[k].flat(), ins[0][k].flat())]
+                      + [z3.Or(z3.fpEQ(a, b), z3.And(z3.fpIsNaN(a), z3.fpIsNaN(b))) for k in cfg["leaves"] for a, b in zip(out.mean[k].flat(), ins[0][k].flat())])
+        goal = z3.And(z3.fpIsInf(bl), z3.fpIsPositive(bl), same)
+        v, m, s_ = smt.check([], goal, 60)
+        o = Ob(f"init_state({'mean, stdev' if with_stdev else 'mean'}): best-so-far loss is +inf (no loss evaluated yet), mean and place-holder candidate are the given mean",
+               v, s_, dict(cfg, with_stdev=with_stdev), key="cem-init", what="CEMSolver.init_state does not start from best-so-far loss +inf / the given mean")
+        if v == "sat":
+            st = solver.init_state(*args)
+            o.replayed = not bool(onp.isposinf(onp.asarray(st.bestsofar_loss)))
+        obs.append(o)
+    return obs
+
+
 def _replay(cfg, m, tr, flat, clause):
     import jax
     from vlib import jx
@@ -296,13 +328,15 @@ def run(rep):
     cfgs = configs(rep.tier)
     rep.configs = cfgs
     rep.bounds = dict(num_samples=sorted({c["N"] for c in cfgs}), elite_portion=sorted({c["elite"] for c in cfgs}), param_leaves="scalar and 2-vector")
-    rep.assumptions = ["previous best-so-far loss is not NaN (initial +inf; preservation is itself an obligation)",
+    rep.assumptions = ["previous best-so-far loss is not NaN (initial +inf: decided on the real init_state; preservation is itself an obligation)",
                        "one iteration from an arbitrary previous state: monotone/minimal/attained follow for cem() by induction over iterations",
                        "evolutionary strategies: candidate generation, elite selection and best-so-far tracking happen inside evosax and are outside the claim; only rex's own evo_step glue "
                        "(candidates evaluated = candidates asked, NaN -> +inf before tell) is decided, around a stub strategy",
                        "jax.random.normal is replaced by an oracle returning arbitrary reals (gaussian_samples obligation)"]
     rep.stubs = ["jax.random.normal -> fresh symbols (pjit name _normal)"]
     obs = pmap("props.c18", "worker_update", cfgs, rep.tier)
+    rep.encode(cem.CEMSolver.init_state)
+    obs += pmap("props.c18", "worker_init", cfgs[:2], rep.tier)
     obs += pmap("props.c18", "worker_samples", [dict(leaves=["a", "b"])], rep.tier)
     from rex import evo
     rep.encode(evo.evo_step)
